@@ -13,7 +13,7 @@ from lib import tlc
 from lib.evidence import Report
 from checks.serial_check import scenario, run_property
 
-ALL_OPS = ['copy', 'alias', 'bin', 'scale', 'aug', 'augscalar', 'ufunc', 'out', 'setall', 'setitem', 'comp', 'stride', 'abs']
+ALL_OPS = ['copy', 'copyto', 'alias', 'bin', 'scale', 'aug', 'augscalar', 'ufunc', 'out', 'setall', 'setitem', 'comp', 'stride', 'abs']
 
 
 PAR_OPS = ['copy', 'alias', 'bin', 'scale', 'aug', 'setpar']  # the parameter-array model (particles: charge and mass)
